@@ -38,6 +38,11 @@ func main() {
 		}
 	case "replay":
 		os.Exit(checks.Replay(os.Args[2]))
+	case "count":
+		for _, id := range []string{"C01", "C02", "C03", "C04", "C05", "C06", "C07", "C08", "C09", "C10", "C11", "C12", "C13", "C14", "C15", "C16", "C17", "C18", "C19", "C20"} {
+			c := checks.Registry[id]
+			fmt.Printf("%s quick=%d thorough=%d\n", id, len(c.Cases("quick")), len(c.Cases("thorough")))
+		}
 	case "list":
 		for id := range checks.Registry {
 			fmt.Println(id)
